@@ -132,7 +132,8 @@ def _chk_unique_name_reset(ctx, px, items):
     if reset_stmt is None:
         return False, "UniqueNameGenerator.reset() is not an unconditional top-level statement of _generate_code"
     # everything that consumes template_gen comes later
-    consumers = [n for n in ast.walk(g.node) if isinstance(n, ast.Name) and n.id == "template_gen" and isinstance(n.ctx, ast.Load)]
+    gen_param = g.node.args.args[3].arg if len(g.node.args.args) > 3 else "template_gen"
+    consumers = [n for n in ast.walk(g.node) if isinstance(n, ast.Name) and n.id == gen_param and isinstance(n.ctx, ast.Load)]
     if not consumers:
         return False, "template_gen is no longer consumed in _generate_code"
     if any(c.lineno <= reset_stmt.lineno for c in consumers):
@@ -159,15 +160,18 @@ def _chk_template_cache(ctx, px, items):
     # value depends on key and on the loader's template listing only
     f = px.func("nunavut.jinja.loaders", "DSDLTemplateLoader._type_to_template_internal")
     stores = [n for n in ast.walk(f.node) if isinstance(n, ast.Assign) and "_type_to_template_lookup_cache[" in ast.unparse(n.targets[0])]
-    ok = len(stores) == 1 and ast.unparse(stores[0].targets[0]) == "self._type_to_template_lookup_cache[current_search_type]" \
-        and ast.unparse(stores[0].value) == "template_path"
+    popped = {t.id for n in ast.walk(f.node) if isinstance(n, ast.Assign) and isinstance(n.value, ast.Call) and getattr(n.value.func, "attr", "") in ("pop", "popleft")
+              for t in n.targets if isinstance(t, ast.Name)}
+    tparam = f.node.args.args[2].arg if len(f.node.args.args) > 2 else "templates"
+    ok = len(stores) == 1 and isinstance(stores[0].targets[0], ast.Subscript) and isinstance(stores[0].targets[0].slice, ast.Name) \
+        and stores[0].targets[0].slice.id in popped and isinstance(stores[0].value, ast.Name)
     if not ok:
         return False, "cache is stored under something other than the class that named the template"
-    prev = None
-    # the stored value comes from templates[current_search_type.__name__]
-    src = [n for n in ast.walk(f.node) if isinstance(n, ast.Assign) and ast.unparse(n.targets[0]) == "template_path"
-           and "templates[" in ast.unparse(n.value)]
-    if not src or ast.unparse(src[0].value) != "templates[current_search_type.__name__]":
+    key, val = stores[0].targets[0].slice.id, stores[0].value.id
+    # the stored value comes from templates[<key class>.__name__]
+    src = [n for n in ast.walk(f.node) if isinstance(n, ast.Assign) and any(isinstance(t, ast.Name) and t.id == val for t in n.targets)
+           and isinstance(n.value, ast.Subscript) and isinstance(n.value.value, ast.Name) and n.value.value.id == tparam]
+    if not src or ast.unparse(src[0].value.slice) != f"{key}.__name__":
         return False, "cached value is not the template named after the key class"
     return True, "memo class -> template named after that class; function of the key and the loader's fixed listing"
 
@@ -187,8 +191,13 @@ def _chk_limit_empty_lines(ctx, px, items):
     for q in ("CodeGenerator._generate_code", "SupportGenerator._copy_header_using_line_pps"):
         g = px.func(GEN_MOD, q)
         calls = []
+        lists = {ast.unparse(c.args[-1]) for c in ast.walk(g.node) if isinstance(c, ast.Call) and isinstance(c.func, ast.Attribute)
+                 and c.func.attr in ("_generate_with_line_buffer", "_filter_and_write_line") and c.args}
+        # ... or the collection whose elements are applied to a line tuple in this function
+        lists |= {ast.unparse(lp.iter) for lp in ast.walk(g.node) if isinstance(lp, ast.For) and isinstance(lp.target, ast.Name)
+                  and any(isinstance(c, ast.Call) and isinstance(c.func, ast.Name) and c.func.id == lp.target.id for c in ast.walk(lp))}
         for lp in ast.walk(g.node):
-            if isinstance(lp, ast.For) and ast.unparse(lp.iter) == "line_pps" and isinstance(lp.target, ast.Name):
+            if isinstance(lp, ast.For) and ast.unparse(lp.iter) in lists and isinstance(lp.target, ast.Name):
                 for c in ast.walk(lp):
                     if isinstance(c, ast.Call) and isinstance(c.func, ast.Attribute) and c.func.attr == rname \
                             and isinstance(c.func.value, ast.Name) and c.func.value.id == lp.target.id:
